@@ -77,6 +77,41 @@ func genC14(t *rapid.T) C14Case {
 	form := func() int {
 		return rapid.SampledFrom([]int{0, 0, 0, 0, 1, 2, 3}).Draw(t, "form")
 	}
+	if rapid.Bool().Draw(t, "clean") {
+		// a line of one family whose every argument is valid (most random lines are refused for one junk
+		// argument; the clauses about accepted lines need accepted lines): tricky but valid values, every form
+		if rapid.Bool().Draw(t, "cleanwatch") {
+			c.Toks = append(c.Toks, Tok{Flag: "w", Val: rapid.SampledFrom([]string{"/etc/passwd", "/tmp/my file", "/a", "/tmp/it's", "/x=y", "/a,b"}).Draw(t, "w"), Form: form()})
+			for i := 0; i < n-1; i++ {
+				if rapid.Bool().Draw(t, "cleanp") {
+					c.Toks = append(c.Toks, Tok{Flag: "p", Form: form(), Val: rapid.SampledFrom([]string{"r", "wa", "rwxa", "x", "ar", "rr"}).Draw(t, "p")})
+				} else {
+					c.Toks = append(c.Toks, Tok{Flag: "k", Form: form(), Val: rapid.SampledFrom([]string{"k", "a b", "a,b", "x=y", "k1,k 2,k3", "-k", "#c"}).Draw(t, "k")})
+				}
+			}
+		} else {
+			c.Toks = append(c.Toks, Tok{Flag: rapid.SampledFrom([]string{"a", "A"}).Draw(t, "aA"), Val: rapid.SampledFrom([]string{"always,exit", "exit,always", "never,exit", "exit,never"}).Draw(t, "la"), Form: form()})
+			for i := 0; i < n-1; i++ {
+				switch rapid.IntRange(0, 4).Draw(t, "cleantok") {
+				case 0, 1:
+					lhs := rapid.SampledFrom([]string{"uid", "path", "a0", "key", "exit", "obj_uid", "subj_user", "auid", "dir"}).Draw(t, "lhs")
+					op := rapid.SampledFrom([]string{"=", "!=", "<", ">", "<=", ">=", "&", "&="}).Draw(t, "op")
+					rhs := rapid.SampledFrom([]string{"0", "/tmp/my file", "/a=b", ">5", "x y z", "5 ", " 5", "-EACCES", "a&b", "q uid=1", "a<b", "it's", `say "x"`, "1\n2", "tab\tx", "!x"}).Draw(t, "rhs")
+					c.Toks = append(c.Toks, Tok{Flag: "F", Form: form(), Val: lhs + op + rhs})
+				case 2:
+					c.Toks = append(c.Toks, Tok{Flag: "C", Form: form(), Val: rapid.SampledFrom([]string{"uid=euid", "uid!=euid", "auid!=obj_uid", "gid=egid", "suid=euid"}).Draw(t, "C")})
+				case 3:
+					c.Toks = append(c.Toks, Tok{Flag: "S", Form: form(), Val: rapid.SampledFrom([]string{"open", "open,close", " read , write", "all", "1,2,3", "execve"}).Draw(t, "S")})
+				default:
+					c.Toks = append(c.Toks, Tok{Flag: "k", Form: form(), Val: rapid.SampledFrom([]string{"k", "a b", "a,b", "x=y", "k1,k 2,k3"}).Draw(t, "k")})
+				}
+			}
+		}
+		if rapid.IntRange(0, 2).Draw(t, "shuffle") == 0 {
+			c.Toks = rapid.Permutation(c.Toks).Draw(t, "perm")
+		}
+		return c
+	}
 	// about half of the lines start from a valid skeleton
 	switch rapid.IntRange(0, 5).Draw(t, "skeleton") {
 	case 0, 1:
